@@ -417,7 +417,8 @@ def _bucket(prop, tier, seed, idx):
         if kind_ == "coupling_layer":
             # a coupling layer through its own constructor: every split point, not only dim // 2
             d_ = r.choice([2, 3, 3, 4, 4, 5])
-            spec = {"kind": "coupling_layer", "dim": d_, "untransformed_dim": r.randrange(1, d_), "cond_dim": r.choice([None, None, 2]),
+            u_ = r.choice([1, d_ - 1, d_ - 1, max(1, d_ // 2), r.randrange(1, d_)])  # both extremes of the split, not only the factories' dim // 2
+            spec = {"kind": "coupling_layer", "dim": d_, "untransformed_dim": u_, "cond_dim": r.choice([None, None, 2]),
                     "transformer": r.choice(["affine", "affine", "spline", "loc"]), "width": r.choice([1, 2, 3, 4]), "depth": r.choice([0, 1, 2]),
                     "invert": r.random() < 0.6}
         else:
